@@ -182,6 +182,30 @@ def run(ctx):
     ports_drop_check(ctx, prog)
     ctx.parallel(job, insts)
     start_cancel_battery(ctx)
+    # "a name clash changes nothing about the existing holder": a spawn under a held name through ActorCell::new and through its thread-local twin
+    # (instances of the registry model shared with C10, reported under this property)
+    import C10
+    import mailbox as mb
+    mprog = mb.load()[0]
+    for fn in (C10.NEW, C10.NEW_TL):
+        b = mprog.find_fn(fn)
+        if b is None:
+            raise Inconclusive('function not found in dump: ' + fn)
+        ctx.encoded(mprog, b)
+    C10.run_instance(ctx, mprog, 'name_clash.regular', 'clash', 1)
+    C10.run_instance(ctx, mprog, 'name_clash.thread_local', 'clash_tl', 1)
+    try:
+        import C10_release_replay
+        rc_ = C10_release_replay.run_clash()
+        ctx.translator_validated += 1
+        ctx.extra['name_clash_native'] = rc_
+        if rc_['violated']:
+            rec = {'name': 'name_clash.native_battery', 'group': 'C08.name_clash', 'solver_s': 0.0, 'status': 'cex'}
+            ctx.obligations.append(rec)
+            ctx.handle_cex(rec['name'], 'C08.name_clash.native', None, lambda _m: {'replayed': True, 'detail': 'real spawns under a held name: %s' % rc_, 'replay': {'which': 'clash'}}, rec)
+    except RuntimeError as e:
+        ctx.inconclusive.append('name clash native scenario unavailable: %s' % str(e)[-300:])
+    ctx.bounds['outside'] = ctx.bounds['outside'].replace('; name clashes (C10)', '')
     # thread-local spawn: the hand-over of the start task between the caller and the spawner thread (abort-on-drop guard on whichever side holds the handle)
     import C08_tlspawn
     import C08_tlspawn_replay
@@ -202,6 +226,9 @@ def replay_file(path):
     import json
     import life_replay
     d = json.load(open(path))
+    if (d.get('replay') or {}).get('which') == 'clash':
+        import C10_release_replay
+        return C10_release_replay.replay_from_json(d)
     if (d.get('replay') or {}).get('which') == 'tlspawn':
         import C08_tlspawn_replay
         return C08_tlspawn_replay.replay_from_json(d)
